@@ -6,7 +6,7 @@
 import ClockBound.Model.SeqlockSys
 import ClockBound.Proofs.SeqlockReader
 namespace ClockBound.C18
-open ClockBound ClockBound.SL
+open ClockBound ClockBound.SL ClockBound.SLR
 
 /-- remaining work of a `snapshot()` call -/
 def mu : RPc → Nat
